@@ -480,7 +480,7 @@ mod k {
         kani::cover!(!ok, "rejected (truncated)");
     }
 
-    /// VERIF: {"p":"C05","tier":"thorough","fns":["radv::icmppkt::parse","radv::icmppkt::parse_nd_rtr_options (CAPTIVE_PORTAL arm)","alloc::string::String::from_utf8"],"bounds":"RS + one captive-portal option with length octet 2 (14 payload octets), kept length P=14, last octet pinned to '/', the 13 octets before it symbolic","oracle":"Ok with a URL of exactly 14 octets, or Err(InvalidEncoding); never a panic","covers":2,"unwind":36}
+    /// VERIF: {"p":"C05","tier":"experimental","fns":["radv::icmppkt::parse","radv::icmppkt::parse_nd_rtr_options (CAPTIVE_PORTAL arm)","alloc::string::String::from_utf8"],"bounds":"RS + one captive-portal option with length octet 2 (14 payload octets), kept length P=14, last octet pinned to '/', the 13 octets before it symbolic","oracle":"Ok with a URL of exactly 14 octets, or Err(InvalidEncoding); never a panic","covers":2,"unwind":36}
     #[kani::proof]
     #[kani::unwind(36)]
     fn c05_icmp_captive_portal_len2() {
@@ -522,7 +522,7 @@ mod k {
         kani::cover!(acc.1 > 0, "rejected");
     }
 
-    /// VERIF: {"p":"C05","tier":"thorough","fns":["radv::icmppkt::parse","radv::icmppkt::parse_nd_rtr_options"],"bounds":"RS + one option with the maximum length octet 255 (2040 octets) in an exactly fitting 2048-octet message: type 1 (source-lladdr: 2038-octet copy) or 3 (prefix: wrong size); payload symbolic","oracle":"Ok or Err, no panic; wrong-size prefix option is an error not a crash","covers":2,"unwind":20}
+    /// VERIF: {"p":"C05","tier":"experimental","fns":["radv::icmppkt::parse","radv::icmppkt::parse_nd_rtr_options"],"bounds":"RS + one option with the maximum length octet 255 (2040 octets) in an exactly fitting 2048-octet message: type 1 (source-lladdr: 2038-octet copy) or 3 (prefix: wrong size); payload symbolic","oracle":"Ok or Err, no panic; wrong-size prefix option is an error not a crash","covers":2,"unwind":20}
     #[kani::proof]
     #[kani::unwind(20)]
     fn c05_icmp_option_len255() {
@@ -531,7 +531,7 @@ mod k {
         kani::cover!(!ok, "rejected");
     }
 
-    /// VERIF: {"p":"C05","tier":"thorough","fns":["radv::icmppkt::parse","radv::icmppkt::parse_nd_rtr_options (RDNSS arm)"],"bounds":"RS + one RDNSS option (type 25) with the maximum length octet 255 = 127 server addresses, exact fit (2048 octets), payload symbolic","oracle":"Ok with 127 servers; no panic","covers":1,"unwind":132}
+    /// VERIF: {"p":"C05","tier":"experimental","fns":["radv::icmppkt::parse","radv::icmppkt::parse_nd_rtr_options (RDNSS arm)"],"bounds":"RS + one RDNSS option (type 25) with the maximum length octet 255 = 127 server addresses, exact fit (2048 octets), payload symbolic","oracle":"Ok with 127 servers; no panic","covers":1,"unwind":132}
     #[kani::proof]
     #[kani::unwind(132)]
     fn c05_icmp_rdnss_len255() {
@@ -549,58 +549,4 @@ mod k {
         }
         std::mem::forget(r);
     }
-
-    // TMPEXP-BEGIN
-    /// VERIF: {"p":"C17","tier":"quick","fns":[],"bounds":"tmp","oracle":"tmp","covers":0,"unwind":24}
-    #[kani::proof]
-    #[kani::unwind(24)]
-    fn c17_tmp_prefix() {
-        let mut o = NDOptions::verif_typed();
-        o.add_option(NDOptionValue::Prefix(AdvPrefix { prefixlen: kani::any(), onlink: kani::any(), autonomous: kani::any(), valid: Duration::from_secs(kani::any()), preferred: Duration::from_secs(kani::any()), prefix: std::net::Ipv6Addr::from(kani::any::<u128>()) }));
-        let a = RtrAdvertisement { hop_limit: kani::any(), flag_managed: kani::any(), flag_other: kani::any(), lifetime: Duration::from_secs(kani::any()), reachable: Duration::from_secs(kani::any()), retrans: Duration::from_secs(kani::any()), options: o };
-        let b = serialise_router_advertisement(&a);
-        assert!(b.len() == 48, "len");
-        std::mem::forget(a);
-        std::mem::forget(b);
-    }
-
-    /// VERIF: {"p":"C17","tier":"quick","fns":[],"bounds":"tmp","oracle":"tmp","covers":0,"unwind":24}
-    #[kani::proof]
-    #[kani::unwind(24)]
-    fn c17_tmp_rdnss() {
-        let mut o = NDOptions::verif_typed();
-        o.add_option(NDOptionValue::RecursiveDnsServers((Duration::from_secs(kani::any()), vec![std::net::Ipv6Addr::from(kani::any::<u128>())])));
-        let a = RtrAdvertisement { hop_limit: kani::any(), flag_managed: kani::any(), flag_other: kani::any(), lifetime: Duration::from_secs(kani::any()), reachable: Duration::from_secs(kani::any()), retrans: Duration::from_secs(kani::any()), options: o };
-        let b = serialise_router_advertisement(&a);
-        assert!(b.len() == 40, "len");
-        std::mem::forget(a);
-        std::mem::forget(b);
-    }
-
-    /// VERIF: {"p":"C17","tier":"quick","fns":[],"bounds":"tmp","oracle":"tmp","covers":0,"unwind":24}
-    #[kani::proof]
-    #[kani::unwind(24)]
-    fn c17_tmp_dnssl() {
-        let mut o = NDOptions::verif_typed();
-        o.add_option(NDOptionValue::DnsSearchList((Duration::from_secs(kani::any()), vec![String::from("a.bc"), String::from("de")])));
-        let a = RtrAdvertisement { hop_limit: kani::any(), flag_managed: kani::any(), flag_other: kani::any(), lifetime: Duration::from_secs(kani::any()), reachable: Duration::from_secs(kani::any()), retrans: Duration::from_secs(kani::any()), options: o };
-        let b = serialise_router_advertisement(&a);
-        assert!(b.len() == 40, "len");
-        std::mem::forget(a);
-        std::mem::forget(b);
-    }
-
-    /// VERIF: {"p":"C17","tier":"quick","fns":[],"bounds":"tmp","oracle":"tmp","covers":0,"unwind":24}
-    #[kani::proof]
-    #[kani::unwind(24)]
-    fn c17_tmp_portal() {
-        let mut o = NDOptions::verif_typed();
-        o.add_option(NDOptionValue::CaptivePortal(String::from("http://x/")));
-        let a = RtrAdvertisement { hop_limit: kani::any(), flag_managed: kani::any(), flag_other: kani::any(), lifetime: Duration::from_secs(kani::any()), reachable: Duration::from_secs(kani::any()), retrans: Duration::from_secs(kani::any()), options: o };
-        let b = serialise_router_advertisement(&a);
-        assert!(b.len() == 32, "len");
-        std::mem::forget(a);
-        std::mem::forget(b);
-    }
-    // TMPEXP-END
 }
